@@ -89,19 +89,36 @@ theorem model_eq_impl_computeProxyState_nil (pv : PV) (o : SOut) : nilModel pv o
   have ho : o ∈ SOut.all := by cases o <;> simp [SOut.all]
   exact eq_of_beqB (h pv (PV.all_complete _) o ho)
 
-/-- **`skip_sound_table`.** Wherever the real code decides, on a non-forced single-key request, to
-    skip an xDS type, the hand-written dependency relation says the change does not affect that
-    type for that proxy - for every kind, proxy variant, namespace class, reason class and
-    waypoint attachment. Equivalently: every dependency listed in `Spec.Affects` is honoured by the
-    real skip tables. -/
-theorem skip_sound_table (r : TRow) (t : GType) (hf : r.forced = false) (hskip : tImpl t.out r = false) :
+/-- The full statement of skip soundness: wherever the real code decides, on a non-forced single-key
+    request, to skip an xDS type, the dependency relation says the change does not affect that type
+    for that proxy. It is FALSE for the pinned tree (`skip_sound_table_witness`). -/
+def SkipSoundFull : Prop :=
+  ∀ (r : TRow) (t : GType), r.forced = false → tImpl t.out r = false → Affects r.change r.pv t = false
+
+/-- **`skip_sound_table_partial`.** Skip soundness on every row of the generated table except the
+    recorded finding (`knownUnsoundSkip`: EDS of a sidecar after a Sidecar / VirtualService-only
+    change): for every kind, proxy variant, namespace class, reason class and waypoint attachment,
+    every other dependency listed in `Spec.Affects` is honoured by the real skip tables. -/
+theorem skip_sound_table_partial (r : TRow) (t : GType) (hf : r.forced = false)
+    (hk : knownUnsoundSkip r t = false) (hskip : tImpl t.out r = false) :
     Affects r.change r.pv t = false := by
   have h := forall_T skipSoundCheck_true r
   have ht : t ∈ GType.all := by cases t <;> simp [GType.all]
   simp only [hf, Bool.false_or, List.all_eq_true] at h
   have := h t ht
-  simp only [hskip, Bool.false_or, Bool.not_eq_true'] at this
+  simp only [hskip, hk, Bool.false_or, Bool.or_false, Bool.not_eq_true'] at this
   exact this
+
+/-- **`skip_sound_table_witness`.** The full statement fails on the real table: a `Sidecar` change in
+    the proxy's own namespace is skipped by the real `edsNeedsPush` for a sidecar, although which
+    service (and so which endpoints) a hostname resolves to depends on the Sidecar resource. Replayed
+    end to end by `harness/corpus/C01/converge.sidecar-switches-service.ops` and the e2e corpus. -/
+theorem skip_sound_table_witness : ¬ SkipSoundFull := by
+  intro h
+  have := h { kind := .sidecar, pv := .sidecar, ns := .own, rc := .plain, forced := false, wp := false } .eds rfl
+    (by decide +kernel)
+  revert this
+  decide
 
 /-- The per-proxy filter equals its specification `Concerns` on every row: a proxy is skipped
     exactly when the change does not concern it. -/
